@@ -434,7 +434,7 @@ def gen_infeasible(rng) -> dict:
         hdr += f"  timingresolution {_pick(rng, ['15min', '30min', '60min'])}\n"
     hdr += "}\n"
     res = 'resource r0 "R0" {}\nresource r1 "R1" { workinghours sat 09:00 - 09:00 }\nresource r2 "R2" { limits { dailymax 1h } }\n'
-    kind = rng.randrange(27)
+    kind = rng.randrange(30)
     far = (start + timedelta(days=rng.randrange(30, 4000))).isoformat()
     before = (start - timedelta(days=rng.randrange(1, 400))).isoformat()
     t = ""
@@ -506,6 +506,23 @@ def gen_infeasible(rng) -> dict:
         t = f'task a "A" {{ start {s} milestone }}\ntask b "B" {{ {_pick(rng, ["milestone", ""])} depends a {{ {gap} }} }}\n'
         if rng.random() < 0.5:
             t += 'task c "C" { effort 2h allocate r0 depends b }\n'
+    elif kind in (27, 28, 29):  # never-available resources: on leave / on vacation for the whole window (and beyond)
+        lo = (start - timedelta(days=rng.randrange(0, 30))).isoformat()
+        hi = (start + timedelta(days=rng.randrange(40, 400))).isoformat()
+        if kind == 27:
+            res += f'resource gone "Gone" {{ {_pick(rng, ["vacation", "leaves annual", "leaves sick"])} {lo} - {hi} }}\n'
+            t = _pick(rng, [
+                'task a "A" { effort 4h allocate gone }\ntask b "B" { effort 1h allocate r0 depends a }\n',
+                'task a "A" { effort 4h allocate r0, gone }\n',
+                'task a "A" { effort 2d allocate gone { alternative r0 } }\ntask c "C" { effort 3h allocate gone }\n',
+                'task a "A" { effort 4h allocate r0 depends b }\ntask b "B" { effort 4h allocate r0 depends a }\n',  # idle gone resource + a cycle
+            ])
+        elif kind == 28:  # the whole project window is a global vacation
+            hdr += f'vacation "Shutdown" {lo} - {hi}\n'
+            t = 'task a "A" { effort 4h allocate r0 }\ntask b "B" { duration 2d depends a }\ntask m "M" { milestone depends a }\n'
+        else:  # a team whose members are all away, an ALAP deadline on top
+            res += f'resource team "Team" {{\n  resource g1 "G1" {{ vacation {lo} - {hi} }}\n  resource g2 "G2" {{ leaves annual {lo} - {hi} }}\n}}\n'
+            t = f'task a "A" {{ effort 6h allocate team }}\ntask z "Z" {{ scheduling alap end {(start + timedelta(days=2)).isoformat()} effort 3h allocate g1 }}\n'
     elif kind == 23:  # macro that calls itself twice
         hdr = "macro d [ ${d} ${d} ]\n" + hdr
         t = 'task a "A" { effort 4h allocate r0 ${d} }\n'
